@@ -2,21 +2,31 @@
 (graph x query enumeration), CypherRead_Trace.tla (Accept per logged case), harness bin cyread."""
 from .qread_common import *
 
-# (family, constants) per stage; quick tier: every graph with <= 2 nodes / <= 2 relationships over the value sets named
-FAMS = [
+# one entry per clause family: (family, graph bounds); every graph within the bounds (up to handle symmetry) is crossed
+# with every query of the family.  quick: <= 2 nodes (3 where the clause needs it) / <= 2 relationships.
+QUICK = [
     dict(fam="scanL", maxn=2, labels=ALL4, p="one"),
-    dict(fam="scanW", maxn=2, labels=L_A, p="mixed", q="one"),
-    dict(fam="scanI", maxn=2, labels=L_A, p="mixed", q="one"),
+    dict(fam="scanW1", maxn=2, labels=L_A, p="mixed"),
+    dict(fam="scanW2", maxn=2, labels=L_NONE, p="num", q="one"),
+    dict(fam="scanI", maxn=2, labels=L_A, p="mixed"),
+    dict(fam="hopD", maxn=2, maxr=2, labels=L_NONE, p="none", types=T2),
+    dict(fam="hopP", maxn=2, maxr=1, labels=L_A, p="one", r="one"),
 ]
+THOROUGH = []
+
+
+def families(ctx, which):
+    only = os.environ.get("VERIF_CYR_FAMS")
+    fams = QUICK if ctx.quick else QUICK + THOROUGH
+    return [f for f in fams if not only or f["fam"] in only.split(",")]
 
 
 def run(ctx):
-    q = ctx.quick
     # design-level self-test: with the multi-label deviation the all-labels law of the statement fails
     ctx.tlc_gen("MC_CypherRead", gen_cfg("scanL", maxn=2, labels=ALL4, p="none", dev='{"KF_C01_MultiLabelUnion"}', emit=""),
                 "kf-witness", expect_violation=True, workers=4)
     total = []
-    for f in FAMS:
+    for f in families(ctx, "c01"):
         scripts = ctx.tlc_gen("MC_CypherRead", gen_cfg(**f), "gen-" + f["fam"], workers=6, timeout=3000)
         total.append((f["fam"], batch(scripts)))
     ctx.assume("graphs: <= 2 nodes / <= 2 relationships exhaustively (quick), labels {A,B}, types {T,U}, property keys p,q over "
